@@ -1,9 +1,9 @@
-use super::{Namespace, TryFromNode, doc::RustDocument};
+use super::{Namespace, TryFromNode, doc::RustDocument, structures::xml_name_to_rust_name};
 use crate::{
     error::{WriterError, WriterResult},
     reader::WriteXml,
 };
-use inflector::cases::{pascalcase::to_pascal_case, snakecase::to_snake_case};
+use inflector::cases::snakecase::to_snake_case;
 use roxmltree::Node;
 use std::{
     fmt::{Display, Formatter},
@@ -101,7 +101,7 @@ impl<'n> TryFromNode<'n> for Field {
 
             let xml_name = ref_node.xml_name().ok_or(WriterError::InvalidReference)?;
             let rust_type = RustFieldType::Other(OtherRustType {
-                name: to_pascal_case(xml_name),
+                name: xml_name_to_rust_name(xml_name),
                 module,
             });
 
@@ -284,7 +284,7 @@ pub fn as_rust_type(node_type: &str, doc: &RustDocument) -> RustFieldType {
         "short" => RustFieldType::I16,
         "boolean" => RustFieldType::Bool,
         v => RustFieldType::Other(OtherRustType {
-            name: to_pascal_case(v),
+            name: xml_name_to_rust_name(v),
             module: namespace.and_then(|ns| {
                 doc.find_module_name_from_namespace_reference(ns)
                     .map(ToString::to_string)
